@@ -254,10 +254,11 @@ class ElabPass:
         """Remove `name` - an array, instance bundle or bundle instance being replaced by its elements - from the
         namespace of `module`, remembering that the designer used it: the names invented for elements and members
         here and in later passes keep clear of it, like of any other name in the module (see `taken`)."""
-        module.namespace.pop(name)
+        dissolved = module.namespace.pop(name)
         if getattr(module, "_dissolved_names", None) is None:
-            module._dissolved_names = set()
-        module._dissolved_names.add(name)
+            module._dissolved_names = dict()
+        # (Kept with the object it named, which remains that of `module`: see `module._holder_of`.)
+        module._dissolved_names[name] = dissolved
 
     def taken(self, module: Module) -> "TakenNames":
         """The names which invented names in `module` must avoid: its namespace, plus the dissolved names."""
